@@ -3,20 +3,544 @@ package main
 
 import (
 	"fmt"
+	"go/ast"
+	"go/token"
+	"reflect"
+	"sort"
+	"strconv"
 	"strings"
 )
 
+type sszCtx struct {
+	pkgs map[string]*sszPackage
+	pkg  *sszPackage
+}
+
+// ---- length expressions ---------------------------------------------------------------------------------
+
+// lexpr renders a Go expression as a Lean `LExpr`; ok=false when it is not constant arithmetic over spec constants.
+func (c *sszCtx) lexpr(e ast.Expr, specNames map[string]bool, depth int) (string, bool) {
+	if depth > 20 {
+		return "", false
+	}
+	switch e := e.(type) {
+	case *ast.ParenExpr:
+		return c.lexpr(e.X, specNames, depth+1)
+	case *ast.BasicLit:
+		if e.Kind == token.INT {
+			n, err := strconv.ParseUint(e.Value, 0, 64)
+			if err == nil {
+				return fmt.Sprintf("(.lit %d)", n), true
+			}
+		}
+	case *ast.CallExpr:
+		// conversions uint64(x), Uint64View(x) …
+		if len(e.Args) == 1 {
+			if id, ok := e.Fun.(*ast.Ident); ok && (id.Name == "uint64" || id.Name == "int" || id.Name == "Uint64View") {
+				return c.lexpr(e.Args[0], specNames, depth+1)
+			}
+		}
+	case *ast.SelectorExpr:
+		if x, ok := e.X.(*ast.Ident); ok {
+			if specNames[x.Name] {
+				return fmt.Sprintf("(.const n!%q)", e.Sel.Name), true
+			}
+			if p := c.pkgs[x.Name]; p != nil {
+				if v, ok := p.consts[e.Sel.Name]; ok {
+					return (&sszCtx{c.pkgs, p}).lexpr(v, nil, depth+1)
+				}
+			}
+		}
+	case *ast.Ident:
+		if v, ok := c.pkg.consts[e.Name]; ok {
+			return c.lexpr(v, nil, depth+1)
+		}
+	case *ast.BinaryExpr:
+		a, ok1 := c.lexpr(e.X, specNames, depth+1)
+		b, ok2 := c.lexpr(e.Y, specNames, depth+1)
+		if ok1 && ok2 {
+			switch e.Op {
+			case token.MUL:
+				return fmt.Sprintf("(.mul %s %s)", a, b), true
+			case token.ADD:
+				return fmt.Sprintf("(.add %s %s)", a, b), true
+			case token.QUO:
+				return fmt.Sprintf("(.div %s %s)", a, b), true
+			}
+		}
+	}
+	return "", false
+}
+
+func sszOptLexpr(s string, ok bool) string {
+	if ok {
+		return "(some " + s + ")"
+	}
+	return "none"
+}
+
+// viewRefName: `XType`, `pkg.XType`, `XType(spec)`, `pkg.XType(spec)` -> qualified name
+func (c *sszCtx) viewRefName(e ast.Expr) (string, bool) {
+	switch e := e.(type) {
+	case *ast.Ident:
+		if c.pkg.views[e.Name] != nil {
+			return c.pkg.name + "." + e.Name, true
+		}
+		return e.Name, true // dot-imported ztyp builtin
+	case *ast.SelectorExpr:
+		if x, ok := e.X.(*ast.Ident); ok {
+			return x.Name + "." + e.Sel.Name, true
+		}
+	case *ast.CallExpr:
+		if len(e.Args) == 1 {
+			if _, isId := e.Args[0].(*ast.Ident); isId {
+				return c.viewRefName(e.Fun)
+			}
+		}
+	}
+	return "", false
+}
+
+// sizeE: a size argument of a codec call
+func (c *sszCtx) sizeE(e ast.Expr, specNames map[string]bool) string {
+	if call, ok := e.(*ast.CallExpr); ok && len(call.Args) == 0 {
+		if sel, ok := call.Fun.(*ast.SelectorExpr); ok && sel.Sel.Name == "TypeByteLength" {
+			if n, ok := c.viewRefName(sel.X); ok {
+				return fmt.Sprintf("(.typeByteLength n!%q)", n)
+			}
+		}
+	}
+	if s, ok := c.lexpr(e, specNames, 0); ok && strings.HasPrefix(s, "(.lit ") {
+		return "(.lit " + strings.TrimSuffix(strings.TrimPrefix(s, "(.lit "), ")") + ")"
+	}
+	return fmt.Sprintf("(.other %q)", sszExprStr(e))
+}
+
+// ---- method bodies ----------------------------------------------------------------------------------------
+
+func sszSpecParamNames(fd *ast.FuncDecl) map[string]bool {
+	out := map[string]bool{}
+	for _, f := range fd.Type.Params.List {
+		if st, ok := f.Type.(*ast.StarExpr); ok {
+			isSpec := false
+			switch t := st.X.(type) {
+			case *ast.Ident:
+				isSpec = t.Name == "Spec"
+			case *ast.SelectorExpr:
+				isSpec = t.Sel.Name == "Spec"
+			}
+			if isSpec {
+				for _, n := range f.Names {
+					out[n.Name] = true
+				}
+			}
+		}
+	}
+	return out
+}
+
+// sszFieldArg: `&x.F`, `x.F`, `spec.Wrap(&x.F)` -> F
+func sszFieldArg(e ast.Expr, recv string) (string, bool) {
+	if call, ok := e.(*ast.CallExpr); ok && len(call.Args) == 1 {
+		if sel, ok := call.Fun.(*ast.SelectorExpr); ok && sel.Sel.Name == "Wrap" {
+			return sszFieldArg(call.Args[0], recv)
+		}
+	}
+	if u, ok := e.(*ast.UnaryExpr); ok && u.Op == token.AND {
+		e = u.X
+	}
+	if sel, ok := e.(*ast.SelectorExpr); ok {
+		if x, ok := sel.X.(*ast.Ident); ok && x.Name == recv {
+			return sel.Sel.Name, true
+		}
+	}
+	return "", false
+}
+
+func sszLeanStrList(xs []string) string {
+	q := make([]string, len(xs))
+	for i, x := range xs {
+		q[i] = "n!" + strconv.Quote(x)
+	}
+	return "[" + strings.Join(q, ", ") + "]"
+}
+
+func sszOpaque(why string) string { return fmt.Sprintf("(.opaque %q)", why) }
+
+// sszSingleReturn: the body is `return <expr>`, optionally preceded by `x := uint64(len(recv))`
+func sszSingleReturn(fd *ast.FuncDecl) (ast.Expr, map[string]bool, bool) {
+	lenVars := map[string]bool{}
+	if fd.Body == nil {
+		return nil, nil, false
+	}
+	stmts := fd.Body.List
+	for len(stmts) > 1 {
+		as, ok := stmts[0].(*ast.AssignStmt)
+		if !ok || as.Tok != token.DEFINE || len(as.Lhs) != 1 || len(as.Rhs) != 1 {
+			return nil, nil, false
+		}
+		if !sszIsLenExpr(as.Rhs[0], nil) {
+			return nil, nil, false
+		}
+		lenVars[as.Lhs[0].(*ast.Ident).Name] = true
+		stmts = stmts[1:]
+	}
+	if len(stmts) != 1 {
+		return nil, nil, false
+	}
+	r, ok := stmts[0].(*ast.ReturnStmt)
+	if !ok || len(r.Results) != 1 {
+		return nil, nil, false
+	}
+	return r.Results[0], lenVars, true
+}
+
+// sszIsLenExpr: uint64(len(x)) or a variable bound to it
+func sszIsLenExpr(e ast.Expr, lenVars map[string]bool) bool {
+	if id, ok := e.(*ast.Ident); ok {
+		return lenVars[id.Name]
+	}
+	call, ok := e.(*ast.CallExpr)
+	if !ok || len(call.Args) != 1 {
+		return false
+	}
+	if id, ok := call.Fun.(*ast.Ident); ok && id.Name == "uint64" {
+		if inner, ok := call.Args[0].(*ast.CallExpr); ok {
+			if f, ok := inner.Fun.(*ast.Ident); ok && f.Name == "len" {
+				return true
+			}
+		}
+	}
+	return false
+}
+
+func (c *sszCtx) method(t *sszType, name string) string {
+	m := t.methods[name]
+	fd := m.decl
+	spec := sszSpecParamNames(fd)
+	ret, lenVars, ok := sszSingleReturn(fd)
+	if !ok {
+		return sszOpaque("body is not a single return statement")
+	}
+	// calls
+	if call, ok := ret.(*ast.CallExpr); ok {
+		if sel, ok := call.Fun.(*ast.SelectorExpr); ok {
+			fn := sel.Sel.Name
+			switch fn {
+			case "Container", "FixedLenContainer", "ContainerLength", "HashTreeRoot":
+				if fn == "HashTreeRoot" && name != "HashTreeRoot" {
+					break
+				}
+				var args []string
+				for _, a := range call.Args {
+					f, ok := sszFieldArg(a, m.recv)
+					if !ok {
+						return sszOpaque(fn + " over something that is not a field of the receiver: " + sszExprStr(a))
+					}
+					args = append(args, f)
+				}
+				return fmt.Sprintf("(.fields n!%q %s)", fn, sszLeanStrList(args))
+			case "List", "Vector":
+				if len(call.Args) == 3 {
+					size := c.sizeE(call.Args[1], spec)
+					if strings.HasPrefix(size, "(.other") {
+						return sszOpaque(fn + " with an element size that is neither a literal nor XType.TypeByteLength(): " + sszExprStr(call.Args[1]))
+					}
+					if fn == "Vector" {
+						l, ok := c.lexpr(call.Args[2], spec, 0)
+						if !ok {
+							return sszOpaque("Vector with a length that is not constant arithmetic: " + sszExprStr(call.Args[2]))
+						}
+						return fmt.Sprintf("(.vector n!%q (some %s) (some %s))", fn, size, l)
+					}
+					if name == "Serialize" {
+						if !sszIsLenExpr(call.Args[2], lenVars) {
+							return sszOpaque("w.List with a length that is not len(receiver)")
+						}
+						return fmt.Sprintf("(.list n!%q (some %s) none)", fn, size)
+					}
+					l, ok := c.lexpr(call.Args[2], spec, 0)
+					if !ok {
+						return sszOpaque("List with a limit that is not constant arithmetic: " + sszExprStr(call.Args[2]))
+					}
+					return fmt.Sprintf("(.list n!%q (some %s) (some %s))", fn, size, l)
+				}
+			case "ComplexListHTR", "Uint64ListHTR", "Uint8ListHTR":
+				if len(call.Args) == 3 && sszIsLenExpr(call.Args[1], lenVars) {
+					l, ok := c.lexpr(call.Args[2], spec, 0)
+					return fmt.Sprintf("(.list n!%q none %s)", fn, sszOptLexpr(l, ok))
+				}
+			case "ComplexVectorHTR", "Uint64VectorHTR":
+				if len(call.Args) == 2 {
+					l, ok := c.lexpr(call.Args[1], spec, 0)
+					if !ok {
+						return sszOpaque(fn + " with a length that is not constant arithmetic: " + sszExprStr(call.Args[1]))
+					}
+					return fmt.Sprintf("(.vector n!%q none (some %s))", fn, l)
+				}
+			case "BitList", "BitVector", "ByteList", "ReadBitList":
+				if name == "Deserialize" && len(call.Args) >= 2 {
+					l, ok := c.lexpr(call.Args[len(call.Args)-1], spec, 0)
+					return fmt.Sprintf("(.bits n!%q %s)", fn, sszOptLexpr(l, ok))
+				}
+				if name == "Serialize" && len(call.Args) == 1 {
+					return fmt.Sprintf("(.bits n!%q none)", fn)
+				}
+			case "Write":
+				if name == "Serialize" && len(call.Args) == 1 {
+					return `(.bits n!"Write" none)`
+				}
+			case "BitListHTR", "ByteListHTR":
+				if len(call.Args) == 2 {
+					l, ok := c.lexpr(call.Args[1], spec, 0)
+					return fmt.Sprintf("(.bits n!%q %s)", fn, sszOptLexpr(l, ok))
+				}
+			case "BitVectorHTR":
+				if len(call.Args) == 1 {
+					return `(.bits n!"BitVectorHTR" none)`
+				}
+			case "TypeByteLength":
+				if len(call.Args) == 0 {
+					if n, ok := c.viewRefName(sel.X); ok {
+						return fmt.Sprintf("(.typeByteLength n!%q)", n)
+					}
+				}
+			}
+		}
+		if sszIsLenExpr(ret, lenVars) && name == "ByteLength" {
+			return ".len"
+		}
+	}
+	// constant arithmetic
+	if l, ok := c.lexpr(ret, spec, 0); ok && (name == "ByteLength" || name == "FixedLength") {
+		return "(.const " + l + ")"
+	}
+	// size * len(a)
+	if b, ok := ret.(*ast.BinaryExpr); ok && b.Op == token.MUL && name == "ByteLength" {
+		if sszIsLenExpr(b.X, lenVars) {
+			return "(.lenTimes " + c.sizeE(b.Y, spec) + ")"
+		}
+		if sszIsLenExpr(b.Y, lenVars) {
+			return "(.lenTimes " + c.sizeE(b.X, spec) + ")"
+		}
+	}
+	return sszOpaque("unrecognised: " + sszExprStr(ret))
+}
+
+// ---- declarations ------------------------------------------------------------------------------------------
+
+func (c *sszCtx) goTypeName(e ast.Expr) string {
+	switch e := e.(type) {
+	case *ast.Ident:
+		if c.pkg.decls[e.Name] {
+			return c.pkg.name + "." + e.Name
+		}
+		return e.Name
+	case *ast.SelectorExpr:
+		if x, ok := e.X.(*ast.Ident); ok {
+			return x.Name + "." + e.Sel.Name
+		}
+	}
+	return sszExprStr(e)
+}
+
+func (c *sszCtx) decl(t *sszType) (string, error) {
+	st, ok := t.spec.Type.(*ast.StructType)
+	if !ok {
+		return fmt.Sprintf("(.named %q)", sszExprStr(t.spec.Type)), nil
+	}
+	var fs []string
+	for _, f := range st.Fields.List {
+		tag := ""
+		if f.Tag != nil {
+			tag, _ = strconv.Unquote(f.Tag.Value)
+		}
+		st := reflect.StructTag(tag)
+		js := strings.Split(st.Get("json"), ",")[0]
+		ys := strings.Split(st.Get("yaml"), ",")[0]
+		if len(f.Names) == 0 {
+			return "", fmt.Errorf("%s: embedded field in an SSZ struct", t.key())
+		}
+		for _, n := range f.Names {
+			fs = append(fs, fmt.Sprintf("⟨n!%q, n!%q, n!%q, n!%q⟩", n.Name, c.goTypeName(f.Type), js, ys))
+		}
+	}
+	return "(.struct [" + strings.Join(fs, ", ") + "])", nil
+}
+
+// ---- view type expressions -----------------------------------------------------------------------------------
+
+func (c *sszCtx) vexpr(e ast.Expr, specNames map[string]bool) string {
+	// spec.Method(): a view type defined as a method of a preset struct (e.g. Phase0Preset.CommitteeIndices)
+	if call, ok := e.(*ast.CallExpr); ok && len(call.Args) == 0 {
+		if sel, ok := call.Fun.(*ast.SelectorExpr); ok {
+			if x, ok := sel.X.(*ast.Ident); ok && specNames[x.Name] {
+				if m := c.pkgs["common"].specMethods[sel.Sel.Name]; m != nil {
+					return (&sszCtx{c.pkgs, c.pkgs["common"]}).vexpr(m.expr, map[string]bool{m.specParam: true})
+				}
+			}
+		}
+	}
+	if call, ok := e.(*ast.CallExpr); ok {
+		fn := ""
+		switch f := call.Fun.(type) {
+		case *ast.Ident:
+			fn = f.Name
+		case *ast.SelectorExpr:
+			if x, ok := f.X.(*ast.Ident); ok && x.Name == "view" {
+				fn = f.Sel.Name
+			}
+		}
+		switch fn {
+		case "ContainerType":
+			if len(call.Args) == 2 {
+				if cl, ok := call.Args[1].(*ast.CompositeLit); ok {
+					var fs []string
+					for _, el := range cl.Elts {
+						fl, ok := el.(*ast.CompositeLit)
+						if !ok || len(fl.Elts) != 2 {
+							return fmt.Sprintf("(.other %q)", sszExprStr(e))
+						}
+						nameLit, ok := fl.Elts[0].(*ast.BasicLit)
+						if !ok {
+							return fmt.Sprintf("(.other %q)", sszExprStr(e))
+						}
+						fs = append(fs, fmt.Sprintf("(n!%s, %s)", nameLit.Value, c.vexpr(fl.Elts[1], specNames)))
+					}
+					return "(.container [" + strings.Join(fs, ", ") + "])"
+				}
+			}
+		case "ListType", "ComplexListType", "BasicListType", "VectorType", "ComplexVectorType", "BasicVectorType":
+			if len(call.Args) == 2 {
+				if l, ok := c.lexpr(call.Args[1], specNames, 0); ok {
+					kind := ".list"
+					if strings.Contains(fn, "Vector") {
+						kind = ".vector"
+					}
+					return fmt.Sprintf("(%s n!%q %s %s)", kind, fn, c.vexpr(call.Args[0], specNames), l)
+				}
+			}
+		case "BitListType", "BitVectorType":
+			if len(call.Args) == 1 {
+				if l, ok := c.lexpr(call.Args[0], specNames, 0); ok {
+					if fn == "BitListType" {
+						return "(.bitlist " + l + ")"
+					}
+					return "(.bitvector " + l + ")"
+				}
+			}
+		case "SmallByteVecMeta":
+			if len(call.Args) == 1 {
+				if l, ok := c.lexpr(call.Args[0], specNames, 0); ok && strings.HasPrefix(l, "(.lit ") {
+					return "(.smallBytes " + strings.TrimSuffix(strings.TrimPrefix(l, "(.lit "), ")") + ")"
+				}
+			}
+		}
+	}
+	if n, ok := c.viewRefName(e); ok {
+		return fmt.Sprintf("(.ref n!%q)", n)
+	}
+	return fmt.Sprintf("(.other %q)", sszExprStr(e))
+}
+
+func sszLeanIdent(s string) string {
+	return strings.NewReplacer(".", "_", "-", "_").Replace(s)
+}
+
 func sszLeanFacts(pkgs map[string]*sszPackage, types []*sszType) (string, string, error) {
 	var b strings.Builder
-	b.WriteString("/-! GENERATED by /verif/go/cmd/extract (sszfacts) from /repo — do not edit. -/\nnamespace Zrnt.Gen.SszFacts\n\n")
-	b.WriteString("def typeNames : List String := [\n")
+	b.WriteString("import Zrnt.Schema.Facts\n/-! GENERATED by /verif/go/cmd/extract (sszfacts) from /repo — do not edit.\n\n")
+	b.WriteString("Every Go type with the SSZ method set: declaration, descriptors of the five method bodies, view type.\n")
+	b.WriteString("`row_ok_<type>`: the per-type obligation (`decide`); a failing row names the type, `checkType` names the method. -/\n")
+	b.WriteString("namespace Zrnt.Gen.SszFacts\nopen Zrnt.Schema Zrnt.Schema.Facts\n\n")
+	// views
+	var viewNames []string
+	for _, p := range sszPkgs {
+		var ns []string
+		for n := range pkgs[p].views {
+			ns = append(ns, n)
+		}
+		sort.Strings(ns)
+		for _, n := range ns {
+			vd := pkgs[p].views[n]
+			c := &sszCtx{pkgs, pkgs[p]}
+			specNames := map[string]bool{}
+			if vd.specParam != "" {
+				specNames[vd.specParam] = true
+			}
+			id := "V_" + sszLeanIdent(p+"."+n)
+			fmt.Fprintf(&b, "def %s : ViewDef := ⟨n!%q, %s⟩\n", id, p+"."+n, c.vexpr(vd.expr, specNames))
+			viewNames = append(viewNames, id)
+		}
+	}
+	b.WriteString("\ndef views : List ViewDef := [\n  " + strings.Join(viewNames, ",\n  ") + "]\n\n")
+	// owners
+	var owners []string
+	for _, t := range types {
+		v, err := sszViewOf(pkgs, t)
+		if err != nil {
+			return "", "", err
+		}
+		if v != "" {
+			owners = append(owners, fmt.Sprintf("(n!%q, n!%q)", v, t.key()))
+		}
+	}
+	b.WriteString("/-- view type definition ↦ the Go type whose tree-view type it is -/\ndef owners : Owners := [\n  " + strings.Join(owners, ",\n  ") + "]\n\n")
+	// types
+	nOpaque, nMethods := 0, 0
+	var opaqueList []string
+	var ids []string
+	for _, t := range types {
+		c := &sszCtx{pkgs, pkgs[t.pkg]}
+		d, err := c.decl(t)
+		if err != nil {
+			return "", "", err
+		}
+		v, _ := sszViewOf(pkgs, t)
+		sf, _ := t.specful()
+		vs := "none"
+		if v != "" {
+			vs = fmt.Sprintf("(some n!%q)", v)
+		}
+		id := "T_" + sszLeanIdent(t.key())
+		ids = append(ids, id)
+		fmt.Fprintf(&b, "def %s : GoType := {\n  name := n!%q, specful := %v, mixedSignatures := %v,\n  decl := %s,\n", id, t.key(), sf, t.mixedSignatures(), d)
+		for _, m := range sszMethodNames {
+			desc := c.method(t, m)
+			nMethods++
+			if strings.HasPrefix(desc, "(.opaque") {
+				nOpaque++
+				opaqueList = append(opaqueList, t.key()+"."+m)
+			}
+			field := strings.ToLower(m[:1]) + m[1:]
+			fmt.Fprintf(&b, "  %s := %s,\n", field, desc)
+		}
+		fmt.Fprintf(&b, "  view := %s }\n\n", vs)
+	}
+	b.WriteString("def types : List GoType := [\n  " + strings.Join(ids, ",\n  ") + "]\n\n")
+	b.WriteString("def typeNames : List Name := types.map (·.name)\n\n")
+	fmt.Fprintf(&b, "/-- method bodies outside the recognised shapes (%d of %d): covered by the correspondence run only -/\n", nOpaque, nMethods)
+	b.WriteString("def opaqueMethods : List String := [\n")
+	for i, o := range opaqueList {
+		sep := ","
+		if i == len(opaqueList)-1 {
+			sep = ""
+		}
+		fmt.Fprintf(&b, "  %q%s\n", o, sep)
+	}
+	b.WriteString("]\n\n")
+	for i, t := range types {
+		fmt.Fprintf(&b, "theorem row_ok_%s : checkType owners views %s = none := by decide +kernel\n", sszLeanIdent(t.key()), ids[i])
+	}
+	// membership lift: the quantified statement from the per-row obligations
+	b.WriteString("\n/-- every row checks (from the per-type obligations above) -/\ntheorem all_rows_ok : types.all (fun T => (checkType owners views T).isNone) = true := by\n  simp only [types, List.all_cons, List.all_nil, Option.isNone_none, Bool.and_self,\n")
 	for i, t := range types {
 		sep := ","
 		if i == len(types)-1 {
-			sep = ""
+			sep = "]"
 		}
-		fmt.Fprintf(&b, "  %q%s\n", t.key(), sep)
+		fmt.Fprintf(&b, "    row_ok_%s%s\n", sszLeanIdent(t.key()), sep)
 	}
-	b.WriteString("]\n\nend Zrnt.Gen.SszFacts\n")
-	return b.String(), "descriptors: not yet emitted", nil
+	b.WriteString("\nend Zrnt.Gen.SszFacts\n")
+	return b.String(), fmt.Sprintf("%d method bodies, %d opaque; %d view type definitions", nMethods, nOpaque, len(viewNames)), nil
 }
